@@ -200,6 +200,11 @@ func genC01(c *Ctx) {
 			}
 			// Sign returns exactly sk * H(m)
 			c.Case("sign/"+key.kind, fmt.Sprintf("sig.expect 0x%s %s", key.k.Text(16), hx(hpoint)), "ok "+hx(sig))
+			// and the same from the message alone: the model computes the KMAC128 expand-message, the hash-to-curve
+			// map (SSWU, isogeny, cofactor clearing) and the scalar multiplication itself
+			if len(msg) <= 2048 {
+				c.Case("sign-from-message/"+key.kind, fmt.Sprintf("bls.signmsg 0x%s %s %s", key.k.Text(16), hx([]byte(tag)), hx(msg)), "ok "+hx(sig))
+			}
 			flips := nFlips
 			if mi > 0 && !c.thorough() {
 				flips = 4
@@ -284,6 +289,8 @@ func genC01(c *Ctx) {
 		hpoint := hashPoint(nil, fh)
 		sig, _ := key.sk.Sign([]byte("m"), fh)
 		c.Case("sign/fixed-hasher", fmt.Sprintf("sig.expect 0x%s %s", key.k.Text(16), hx(hpoint)), "ok "+hx(sig))
+		// the hash point itself, from the 128 bytes the hasher returns (field elements >= p are reduced)
+		c.Case("map-to-g1/fixed-hasher", "h2c.map "+hx(out), "ok "+hx(hpoint))
 		emitVerify("verify/fixed-hasher", key, hpoint, sig, verifyAns(key.pk, sig, []byte("m"), fh))
 		emitVerify("verify/fixed-hasher-flip", key, hpoint, flipBit(sig, 100), verifyAns(key.pk, flipBit(sig, 100), []byte("m"), fh))
 	}
